@@ -1,5 +1,213 @@
-import sys, json
-from . import runner
+import sys, os, json, re, time, hashlib
+from concurrent.futures import ThreadPoolExecutor
+from . import runner, gen, replay as rp
+from .props import PROPS
+
+ROOT = gen.ROOT
+EVID = os.path.join(ROOT, "evidence")
+OUT = os.path.join(ROOT, "out")
+
+
+def scan_assumptions(text):
+    """Mechanical scan of a generated unit for everything that is assumed rather than proved."""
+    out = []
+    for m in re.finditer(r"assume_specification\s*(?:<[^>]*>)?\s*\[\s*([^\]]+?)\s*\]", text):
+        out.append("assume_specification: " + re.sub(r"\s+", " ", m.group(1)))
+    for m in re.finditer(r"#\[verifier::external_body\]\s*(?:#\[[^\]]*\]\s*)*(?:pub\s+)?(?:broadcast\s+)?(?:proof\s+)?(fn|struct)\s+([A-Za-z0-9_]+)", text):
+        out.append("external_body %s %s" % (m.group(1), m.group(2)))
+    for m in re.finditer(r"uninterp\s+spec\s+fn\s+([A-Za-z0-9_]+)", text):
+        out.append("uninterpreted spec fn " + m.group(1))
+    for m in re.finditer(r"\b(assume|admit)\s*\(", text):
+        # position -> must not occur at all in contracts/speclib
+        out.append("FORBIDDEN %s( at offset %d" % (m.group(1), m.start()))
+    for m in re.finditer(r"external_type_specification", text):
+        out.append("external_type_specification")
+    return sorted(set(out))
+
+
+def load_known():
+    p = os.path.join(ROOT, "known_findings.json")
+    if not os.path.exists(p):
+        return []
+    return json.load(open(p)).get("findings", [])
+
+
+def in_scope(prop, failure):
+    scope = PROPS[prop].get("scope")
+    if not scope:
+        return True
+    fn = failure.get("function") or ""
+    ob = failure.get("obligation") or ""
+    for pat in scope:
+        if re.search(pat, ob.split(": ")[0]):
+            return True
+    return False
+
+
+def write_evidence(prop, tier, seed, results, kani_results, violations, known_hits, wall, extra_notes):
+    spec = PROPS[prop]
+    obligations = sum(r.obligations() for r in results)
+    discharged = sum(r.discharged() for r in results)
+    functions = []
+    rules = {}
+    dropped = []
+    assumptions = set(spec.get("assumptions", []))
+    samples = []
+    per_fn = []
+    cmds = []
+    for r in results:
+        if r.extractor:
+            for f in r.extractor.functions:
+                functions.append("%s:%s [%s bytes %d..%d sha256 %s]" % (r.unit, f["label"], f["file"], f["byte_range"][0], f["byte_range"][1], f["sha256"]))
+            for k, v in r.extractor.rule_counts.items():
+                rules[r.unit + ":" + k] = v
+            dropped.extend(r.extractor.dropped)
+        if r.path and os.path.exists(r.path):
+            for a in scan_assumptions(open(r.path).read()):
+                assumptions.add("%s: %s" % (r.unit, a))
+        for f in r.functions:
+            per_fn.append({"unit": r.unit, "function": f["function"], "mode": f["mode"], "smt_us": f["smt_us"], "rlimit": f["rlimit"], "discharged": f["success"]})
+        cmds.append(r.cmd)
+    per_fn.sort(key=lambda x: -x["smt_us"])
+    for f in per_fn[:8]:
+        samples.append("%s::%s (%s) discharged=%s smt=%dus rlimit=%d" % (f["unit"], f["function"], f["mode"], f["discharged"], f["smt_us"], f["rlimit"]))
+    cov = {
+        "obligations": obligations + sum(k.get("checks", 0) for k in kani_results),
+        "discharged": discharged + sum(k.get("checks_ok", 0) for k in kani_results),
+        "checker_cmd": " ; ".join(cmds + [k["cmd"] for k in kani_results]) or "none",
+        "trusted_base": sorted(assumptions),
+        "samples": samples or ["(no obligations generated)"],
+        "backend": "Verus 0.2026.09.13 -> Z3 (bundled)" + ("; Kani 0.68 -> CBMC 6.11" if kani_results else ""),
+        "verus_function_vcs": obligations,
+        "verus_function_vcs_discharged": discharged,
+        "functions_under_contract": functions,
+        "per_function": per_fn,
+        "smt_ms_total": sum(r.smt_ms for r in results),
+        "normalisation_rules_applied": rules,
+        "extraction_dropped": sorted(set(dropped)),
+        "units": [{"unit": r.unit, "status": r.status, "verified": r.verified, "errors": r.errors, "smt_ms": r.smt_ms,
+                   "wall_s": round(r.wall_s, 2), "canary": r.canary, "problems": r.problems[:5]} for r in results],
+        "kani": kani_results,
+        "bounded_stand_ins": [k for k in kani_results if k.get("bounded")],
+        "not_covered": spec.get("not_covered", []),
+        "known_findings_hit": known_hits,
+        "failed_obligations": [v["obligation"] for v in violations],
+        "notes": extra_notes,
+    }
+    ev = {
+        "property_id": prop,
+        "tier": tier,
+        "seed": seed,
+        "level": spec.get("level", "proof"),
+        "coverage": cov,
+        "assumptions": sorted(assumptions),
+        "wall_s": round(wall, 2),
+        "violations": len(violations),
+    }
+    os.makedirs(EVID, exist_ok=True)
+    with open(os.path.join(EVID, prop + ".json"), "w") as fh:
+        json.dump(ev, fh, indent=1)
+
+
+def run_property(prop, tier, seed):
+    t0 = time.time()
+    spec = PROPS[prop]
+    units = spec["units"]
+    canary = (tier == "thorough") or spec.get("canary_quick", True)
+    with ThreadPoolExecutor(max_workers=min(16, max(1, len(units)))) as ex:
+        results = list(ex.map(lambda u: runner.run_unit(u, canary=canary), units))
+    kani_results = []
+    if spec.get("kani"):
+        from . import kani
+        kani_results = kani.run_harnesses(prop, spec["kani"], tier)
+    notes = []
+    undecided = []
+    violations = []
+    for r in results:
+        if r.status == "undecided" or r.status == "error":
+            undecided.extend("%s: %s" % (r.unit, p) for p in r.problems)
+        for f in r.failures:
+            if in_scope(prop, f):
+                violations.append(dict(f, unit=r.unit))
+            else:
+                notes.append("out-of-scope failure (belongs to another property): " + f["obligation"])
+    for k in kani_results:
+        if k["status"] == "fail":
+            violations.append({"obligation": "kani/%s" % k["harness"], "kind": "kani", "function": k["harness"],
+                               "message": k.get("summary", ""), "rendered": k.get("tail", ""), "unit": "kani",
+                               "witness": k.get("witness")})
+        elif k["status"] != "pass":
+            undecided.append("kani %s: %s" % (k["harness"], k.get("summary", "")))
+    known = [k for k in load_known() if k.get("property") == prop and k.get("status") == "known"]
+    known_hits = []
+    rc = 0
+    os.makedirs(os.path.join(OUT, "replay"), exist_ok=True)
+    reported = []
+    for i, v in enumerate(violations):
+        # witness search on the real code
+        w = v.get("witness")
+        note = ""
+        if w is None and v.get("kind") != "kani":
+            w, note = rp.find_witness(v["obligation"], seed)
+        v["witness"] = w
+        v["witness_note"] = note
+        # known finding?
+        hit = None
+        for k in known:
+            if v["obligation"].startswith(k["obligation_prefix"]) and (k.get("input") is None or (w and w.get("input") == k.get("input"))):
+                hit = k
+                break
+        if hit:
+            print("KNOWN-FINDING: property=%s %s" % (prop, hit["what"]))
+            known_hits.append(hit["what"])
+            continue
+        path = os.path.join(OUT, "replay", "%s-%d.json" % (prop, i))
+        with open(path, "w") as fh:
+            json.dump({"property": prop, "obligation": v["obligation"], "kind": v["kind"], "verifier_message": v["message"],
+                       "verifier_output": v.get("rendered", ""), "witness": w, "witness_note": note,
+                       "replay_cmd": "./check --replay %s" % path}, fh, indent=1)
+        print("failed obligation: %s" % v["obligation"])
+        if w:
+            print("  failing input on the real code: %r  expected %s  observed %s" % (w.get("input"), w.get("expected"), w.get("observed")))
+            print("VIOLATION property=%s replay=%s" % (prop, path))
+        else:
+            print("  (%s)" % note)
+            print("VIOLATION property=%s replay=%s no-failing-input-found" % (prop, path))
+        reported.append(v)
+        rc = 1
+    if undecided and rc == 0:
+        for u in undecided:
+            print("UNDECIDED: " + u)
+        rc = 2
+    wall = time.time() - t0
+    write_evidence(prop, tier, seed, results, kani_results, reported, known_hits, wall, notes + undecided)
+    tot = sum(r.obligations() for r in results); dis = sum(r.discharged() for r in results)
+    print("%s %s: units=%s verus function-VCs %d/%d discharged, smt %d ms, kani harnesses %d, wall %.1fs -> %s" % (
+        prop, tier, ",".join(units), dis, tot, sum(r.smt_ms for r in results), len(kani_results), wall,
+        {0: "PASS", 1: "VIOLATION", 2: "UNDECIDED"}[rc]))
+    return rc
+
+
+def do_replay(path):
+    d = json.load(open(path))
+    print("obligation:", d["obligation"])
+    print(d.get("verifier_output", ""))
+    w = d.get("witness")
+    if not w:
+        print("no concrete failing input was found (%s); the violation is the failed obligation above" % d.get("witness_note"))
+        return 1
+    drv = rp.Driver()
+    if not drv.build():
+        print(drv.build_log); return 2
+    op = w.get("op")
+    if op:
+        got = drv.call(*op)
+        drv.close()
+        print("input %r: expected %s, real code returns %s" % (w["input"], w["expected"], got))
+        return 1 if got.split(" ")[0] != w["expected"].split(" ")[0] or got != w["expected"] and w["expected"].startswith("ok") else 0
+    print("witness:", json.dumps(w))
+    return 1
+
 
 def main(argv):
     if argv and argv[0] == "--unit":
@@ -13,5 +221,11 @@ def main(argv):
         if r.canary: print("  canary", r.canary)
         if r.extractor: print("  rules", r.extractor.rule_counts)
         return {"pass": 0, "fail": 1}.get(r.status, 2)
-    print("usage: check <ID> <quick|thorough> | --unit NAME")
+    if argv and argv[0] == "--replay":
+        return do_replay(argv[1])
+    if len(argv) >= 1 and argv[0] in PROPS:
+        tier = argv[1] if len(argv) > 1 else os.environ.get("VERIF_TIER", "quick")
+        seed = int(os.environ.get("VERIF_SEED", "0") or 0)
+        return run_property(argv[0], tier, seed)
+    print("usage: check <ID> <quick|thorough> | --unit NAME [--canary] [-v] | --replay FILE")
     return 2
